@@ -380,6 +380,10 @@ template <class B> static B* new_block(int p) { B* b = new B(); BlockParameters 
 template <> CdnsBlock* new_block<CdnsBlock>(int p) { BlockParameters bp = mk_bp(p); return new CdnsBlock(bp, 0); }
 
 // B = CdnsBlockRead (copies are read through the generic read API) or CdnsBlock (a block the application fills and writes)
+static int stats_of(CdnsBlock& b) {
+    return b.m_block_statistics && b.m_block_statistics->processed_messages ? static_cast<int>(*b.m_block_statistics->processed_messages) : 0;
+}
+
 template <class B>
 static void run_blk_history(const json& h)
 {
@@ -406,12 +410,18 @@ static void run_blk_history(const json& h)
             int t = o["t"], v = o["v"]; std::string k = o["k"];
             CdnsBlock& b = *slots[t];
             bool full;
-            if (k == "qr") full = b.add_question_response_record(mk_gqr(v));
-            else if (k == "aec") full = b.add_address_event_count(mk_gaec(v));
-            else full = b.add_malformed_message(mk_gmm(v));
+            // every third item comes with block statistics (processed_messages = id + 1): the statistics most recently supplied
+            // are part of what the block holds (sv: supplied now, 0 = none; st: what the block states afterwards, 0 = absent)
+            boost::optional<BlockStatistics> bs;
+            int sv = 0;
+            // (only with query/responses: whether statistics that come with an item the hints exclude count is not settled by the statement)
+            if (k == "qr" && v % 3 == 1) { bs = BlockStatistics(); bs->processed_messages = static_cast<unsigned>(v + 1); sv = v + 1; }
+            if (k == "qr") full = b.add_question_response_record(mk_gqr(v), bs);
+            else if (k == "aec") full = b.add_address_event_count(mk_gaec(v), bs);
+            else full = b.add_malformed_message(mk_gmm(v), bs);
             hist[t].push_back({k, v});
             vh::trace().emit({{"e", "I"}, {"t", t}, {"k", k}, {"v", v}, {"n", kind_count(b, k)}, {"full", full},
-                              {"fe", fresh_earliest_same(t)}});
+                              {"fe", fresh_earliest_same(t)}, {"sv", sv}, {"st", stats_of(b)}});
         } else if (op == "new") {
             int t = o["t"], p = o["p"];
             slots[t] = std::shared_ptr<B>(new_block<B>(p));
@@ -453,7 +463,7 @@ static void run_blk_history(const json& h)
             ps[d] = ps[s];
             hist[d] = hist[s];
             CdnsBlock& db = *slots[d];
-            vh::trace().emit({{"e", "CP"}, {"src", s}, {"dst", d}, {"how", how}, {"foreign", foreign(db)},
+            vh::trace().emit({{"e", "CP"}, {"src", s}, {"dst", d}, {"how", how}, {"foreign", foreign(db)}, {"st", stats_of(db)},
                               {"counts", json::array({db.get_qr_count(), db.get_aec_count(), db.get_mm_count()})}});
         } else if (op == "read") {
             int t = o["t"]; std::string k = o["k"];
